@@ -72,7 +72,13 @@ MLine(before, after) ==
                k |-> o.k, w |-> o.w, p |-> o.p, a |-> o.a, b |-> IF o.k = "reply" THEN 1 ELSE 0, c |-> 0,
                r |-> o.r, x |-> o.x]
   IN IF o.k = "req" THEN base @@ [q |-> [after.creq EXCEPT !.G = IF @ = -1 THEN -1 ELSE @ * 100,
-                                                            !.file = [j \in 1..Len(@) |-> FileMs(@[j])]]]
+                                                            !.file = [j \in 1..Len(@) |-> FileMs(@[j])]]
+                                        @@ [setnp |-> IF after.creq.cmd = "set" /\ (after.creq.opts = <<>> \/
+                                                           \E j \in 1..Len(after.creq.opts) : after.creq.opts[j].k = "np")
+                                                      THEN (IF after.creq.opts = <<>> THEN after.creq.nb
+                                                            ELSE after.creq.opts[CHOOSE j \in 1..Len(after.creq.opts) :
+                                                                                   after.creq.opts[j].k = "np"].v)
+                                                      ELSE -99]]
      ELSE IF o.k = "reply"
      THEN \* the reason class of a refusal (D7's signature): the model's only apply-time refusal of `set` is the singleton one
           base @@ [rc |-> IF o.r = "error" /\ before.cur # <<>> /\ before.fr[Head(before.cur)].fn = "req"
@@ -168,7 +174,7 @@ View == <<[s EXCEPT !.out = NoLine], g, bad, n>>
 \* ---- one invariant per listed property: no clause of the property is violated, except with the signature of
 \* a recorded finding (the second component names it; "" = unexplained)
 Unexplained(cs) == { e \in bad : e[1] \in cs /\ e[2] = "" }
-Inv_C01 == Unexplained({"C01_range", "C01_converge", "C01_fixpoint", "C01_fresh", "C01_period"}) = {}
+Inv_C01 == Unexplained({"C01_range", "C01_converge", "C01_fixpoint", "C01_fresh", "C01_period", "C01_set"}) = {}
 Inv_C02 == Unexplained({"C02_complete", "C02_opdone", "C02_stays"}) = {}
 Inv_C03 == Unexplained({"C03_first", "C03_notearly", "C03_notdead", "C03_prompt", "C03_kids", "C03_stopsig"}) = {}
 Inv_C04 == Unexplained({"C04_list", "C04_count", "C04_owned", "C04_status"}) = {}
